@@ -54,6 +54,20 @@ func checkC17(c *Ctx) {
 		}
 		c.endsBothOrientations("ENDS", fs, "each of them is a well-formed tree")
 	}
+	c.Decides("FRESH-RESULT: the enumerations Rearrange ranges over while its callback runs (Edges, and with it InternalEdges, TipEdges, Nodes, Tips, SortedTips, AllTipNames) return a slice created in the call, never storage kept in the tree and re-used by the next call")
+	{
+		var fis []*FuncInfo
+		for _, n := range []string{"Edges", "InternalEdges", "TipEdges", "Nodes", "Tips", "SortedTips", "AllTipNames"} {
+			if fi := c.Func("tree", "Tree", n); fi != nil {
+				fis = append(fis, fi)
+			}
+		}
+		c.freshResult("FRESH-RESULT", fis, "all proposed neighbours are pairwise distinct")
+	}
+	c.Floor("FRESH-RESULT", 5)
+	c.Decides("BUF-FLUSH (shared with C16): every bufio.Writer of the repository (the nni command writes through none today) is flushed before its file is closed - no deferred Flush that runs after an ordinary or a later-deferred close")
+	c.bufFlush("BUF-FLUSH", c.All, "the NNI generator proposes exactly two rearrangements per inner branch")
+	c.Floor("BUF-FLUSH", 3)
 	c.Floor("ENDS", 1)
 	c.Floor("GF", 2)
 	c.Floor("SLOTS", 2)
